@@ -1,11 +1,57 @@
-/- BDS 1,0 — crates/rs1090/src/decode/bds/bds10.rs   (STUB: not modelled yet) -/
+/- BDS 1,0 data link capability report — crates/rs1090/src/decode/bds/bds10.rs -/
 import Rs1090.Model.Decode.Common
 namespace Rs1090.Model.Bds10
 open Rs1090 Rs1090.Model
 
-/-- STUB -/
-def modelled : Bool := false
+def modelled : Bool := true
 
-def read : R SerFields := R.fail .other
+/-- `fail_if_not10` (deku `map` on the first byte): `Err(DekuError::Assertion)` unless `0x10` -/
+def failIfNot10 (v : Nat) : Outcome Nat :=
+  if v == 0x10 then .ok v else .err .assertion
+
+/-- `fail_if_not0` (deku `map` on the 5 reserved bits) -/
+def failIfNot0 (v : Nat) : Outcome Nat :=
+  if v == 0 then .ok v else .err .assertion
+
+/-- `DataLinkCapability` (DekuRead struct, 8+1+5+1+1+7+1+1+3+4+1+1+1+1+1+1+2+16 = 56 bits).
+    serde: `tag = "bds", rename = "10"`; `bds`, `reserved`, `uplink`, `downlink`, `acas_rtca`
+    are `#[serde(skip)]`.  `dte: u16` has `bits = "16"` and no `endian` attribute: deku's default
+    is the *native* endianness, so on the (little-endian) targets the crate is built for the
+    first MB byte of the field is the least significant one. -/
+def read : R SerFields := do
+  let b ← bits 8
+  let _ ← R.lift (failIfNot10 b)
+  let config ← flag
+  let r ← bits 5
+  let _ ← R.lift (failIfNot0 r)
+  let ovc ← flag
+  let acas ← flag
+  let subnet ← bits 7
+  let level5 ← flag
+  let modeS ← flag
+  let _uplink ← bits 3
+  let _downlink ← bits 4
+  let ident ← flag
+  let squitter ← flag
+  let sic ← flag
+  let gicb ← flag
+  let hybrid ← flag
+  let ra ← flag
+  let _rtca ← bits 2
+  let dte ← bitsLE 16
+  pure <| tagged (key! "bds") (key! "10") <| .ok [
+    fld (key! "config") (jbool config),
+    fld (key! "ovc") (jbool ovc),
+    fld (key! "acas") (jbool acas),
+    fld (key! "subnet") (jnat subnet),
+    fld (key! "level5") (jbool level5),
+    fld (key! "mode_s") (jbool modeS),
+    fld (key! "identification") (jbool ident),
+    fld (key! "squitter") (jbool squitter),
+    fld (key! "sic") (jbool sic),
+    fld (key! "gicb") (jbool gicb),
+    fld (key! "acas_hybrid") (jbool hybrid),
+    fld (key! "acas_ra") (jbool ra),
+    fld (key! "dte") (jnat dte) ]
 
 end Rs1090.Model.Bds10
